@@ -43,6 +43,13 @@ def check(run):
     prog.load_many([OA] + RATES + [CORE] + REPO)
     for f in [OA] + RATES + [CORE]:
         run.use_file(f)
+    # shape normalisation: code hoisted into private helpers (module-level or methods) is read where it is called
+    for c_ in sorted(prog.classes.values(), key=lambda c_: c_.qual):
+        if c_.mod.relpath in [OA] + RATES + [CORE]:
+            try:
+                prog.normalise_class(c_, propagate=False)
+            except Exception:
+                pass
     run.explanation = (
         'Decides structural necessary conditions of C07 on all accessors of OpenADAS and all rate classes: (R1) each accessor '
         'catches exactly what its repository getter raises for missing data (computed from the getter) and returns the family '
